@@ -1,22 +1,25 @@
 #!/usr/bin/env python3
-"""tools/import_seed.py <src-dir> <seed-id> <property>  : verify a seeded change in the scratch worktree, run the checks against it (applied to /repo, undone
-straight afterwards) and store it as seeded/<seed-id>/{patch.diff, demo.py, meta.json}."""
+"""tools/import_seed.py <src-dir> <seed-id> <property>  : verify a seeded change in a scratch worktree of /repo ($SEED_WT, default /tmp/wt/verify), run all
+20 checks against that worktree (PYVC_REPO; the patch is undone straight afterwards) and store it as seeded/<seed-id>/{patch.diff, demo.py, notes.md, meta.json}.
+(tools/seedtest.py does the same with the patch applied to /repo itself: same verdicts, but nothing else may use /repo meanwhile.)"""
 import sys, os, subprocess, json, shutil, re
 ROOT = os.path.dirname(os.path.dirname(os.path.abspath(__file__)))
 src, sid, prop = sys.argv[1], sys.argv[2], sys.argv[3]
 dst = os.path.join(ROOT, 'seeded', sid); os.makedirs(dst, exist_ok=True)
-for f in ('patch.diff', 'demo.py'): shutil.copy(os.path.join(src, f), os.path.join(dst, f))
+for f in ('patch.diff', 'demo.py', 'notes.md'):
+    if os.path.exists(os.path.join(src, f)): shutil.copy(os.path.join(src, f), os.path.join(dst, f))
 notes = open(os.path.join(src, 'notes.md')).read() if os.path.exists(os.path.join(src, 'notes.md')) else ''
 v = subprocess.run([os.path.join(ROOT, 'tools', 'verify_seed.sh'), src], capture_output=True, text=True).stdout.strip().splitlines()
-s = subprocess.run([os.path.join(ROOT, 'tools', 'seedtest.py'), src], capture_output=True, text=True).stdout
-caught = re.search(r"CAUGHT by: (\[.*?\]|NONE)", s); und = re.search(r"undecided: (\[.*?\])", s)
+WT = os.environ.get('SEED_WT', '/tmp/wt/verify')
+s = subprocess.run([sys.executable, os.path.join(ROOT, 'tools', 'refactortest.py'), os.path.join(src, 'patch.diff')], capture_output=True, text=True, env=dict(os.environ, DEVTREE=WT)).stdout.replace('FALSE ALARMS:', 'CAUGHT by:')
+caught = re.search(r"CAUGHT by: (\[.*?\]|NONE|none)", s); und = re.search(r"undecided: (\[.*?\])", s)
 viol = [l.strip() for l in s.splitlines() if 'VIOLATION' in l]
 files = sorted(set(re.findall(r"^\+\+\+ b/(.*)$", open(os.path.join(dst, 'patch.diff')).read(), re.M)))
 m = re.search(r"(?is)(needs?[^\n]*manifest[^\n]*\n(?:.+\n){0,8})", notes)
 meta = {'seed': sid, 'property': prop, 'files_changed': files, 'origin': 'independent sub-agent given only the property text and its own scratch worktree',
         'what_it_needs_to_manifest': (m.group(1).strip()[:900] if m else notes[:900]),
-        'verification_in_scratch_worktree': v[:1], 'ran': ['tools/verify_seed.sh (git apply in /tmp/wt/verify; baseline test-suite; demo with and without the patch)', 'tools/seedtest.py (git -C /repo apply; ./check for all 20 properties; git -C /repo checkout -- .)'],
-        'checks_reporting_a_violation': eval(caught.group(1)) if caught and caught.group(1) != 'NONE' else [], 'checks_undecided': eval(und.group(1)) if und else [],
+        'verification_in_scratch_worktree': v[:1], 'ran': ['tools/verify_seed.sh (git apply in the scratch worktree; baseline test-suite; demo with and without the patch)', 'tools/refactortest.py with DEVTREE=<scratch worktree> (git apply there; ./check for all 20 properties with PYVC_REPO=<scratch worktree>; git checkout -- .)'],
+        'checks_reporting_a_violation': eval(caught.group(1)) if caught and caught.group(1) not in ('NONE', 'none') else [], 'checks_undecided': eval(und.group(1)) if und else [],
         'violation_lines': viol[:12], 'replayed_natively': any('no-failing-input-found' not in l for l in viol)}
 json.dump(meta, open(os.path.join(dst, 'meta.json'), 'w'), indent=1)
 print(sid, prop, 'caught by', meta['checks_reporting_a_violation'], 'native', meta['replayed_natively'], '|', v[:1])
